@@ -125,11 +125,16 @@ def dispatchSet (d : Disp) (id : Id) (cmd : Option Hnd) (arg : Nat) : Disp × In
       ({ d with tab := r.1 }, r.2.1, r.2.2)
 
 /- ---------- dispatch_finit.c ---------- -/
+/-- `_err.cmd(_err.arg, 0)` if a fallback is set -/
+def errFin (err : Option Nat) : List LogE :=
+  match err with
+  | some r => [.fin r]
+  | none => []
+
 /-- `mpt_dispatch_fini(disp)` -/
 def dispatchFini (d : Disp) : Disp × List LogE :=
   let c := commandClear d.tab
-  let e := match d.err with | some r => [LogE.fin r] | none => []
-  ({ tab := none, dflt := 0, err := none }, c.2 ++ e)
+  ({ tab := none, dflt := 0, err := none }, c.2 ++ errFin d.err)
 
 /- ---------- handler invocation ---------- -/
 /-- result of `cmd(arg, ev)`: log, event id afterwards, returned value; `none` = undefined behaviour
